@@ -34,6 +34,18 @@ CLAIMS = {
         "text": "Sibling-table agreement on the relay codec: typ() vs decoder arm relation per enum, symbolic size agreement of write_to vs encoded_len per variant, batch<=>segment-size consistency across the four Datagrams functions, version gating of Health/Status, all size checks bound the same quantity by the same const with the right orientation, websocket limits, distinct single-byte tags. Byte-exact round trip and panic-freedom of decoding are NOT decided (fuzzed by existing proptests).",
         "technique": "match-arm table extraction from MIR and relational comparison; same-const and orientation checks on comparison statements; ADT discriminant table",
     },
+    "C11": {
+        "text": "Decides: derived Ord of ProtocolVersion is strictly increasing in the wire-name version number, printer/parser tables agree and ALL is complete; the server selects with Iterator::max over parsed offers, echoes and runs exactly the selected value, and only upgrades with a selection; the client runs the parsed header value and fails without it. Header string splitting is not decided.",
+        "technique": "match-arm table extraction (printer/parser), ADT variant order, copy-chain provenance of the selected version into response header and spawned handler, success-edge dominance",
+    },
+    "C12": {
+        "text": "Decides the control-flow order of token sources in ClientRequest::auth_token on all paths: headers first and in order, non-ASCII header aborts with None (no query fallback), first Bearer match returns immediately, query only after header exhaustion, scheme/token are the halves of split_once. Case-folding and form-decoding semantics are not decided.",
+        "technique": "CFG reachability / success-edge dominance on MIR of the function",
+    },
+    "C14": {
+        "text": "Decides: PingTracker state is written only by its four methods; pong_received changes state only under (ping outstanding && payload equal), clears it and measures RTT from that ping; new_ping_with_timeout overwrites unconditionally and returns the stored random payload; timeout sleeps on the outstanding ping's own deadline and pends otherwise. The 3x-RTT clamp and timing are not decided.",
+        "technique": "who-writes inventory + success-edge dominance on field tests + copy-chain provenance",
+    },
 }
 
 _PENDING = "rules for this property are not implemented yet in this revision (see DESIGN.md §4 for the planned structural clauses)"
